@@ -228,6 +228,75 @@ theorem prefix_values :
     prefixOf .relay = [0xfd, 0x15, 0x07, 0x0a, 0x51, 0x0b, 0x00, 0x01] ∧
     prefixOf .custom = [0xfd, 0x15, 0x07, 0x0a, 0x51, 0x0b, 0x00, 0x03] := by decide
 
+
+/-! ### translation back to transport addresses (`to_transport_addr`) -/
+
+theorem classify_of_isKind (k : Kind) (hk : k ≠ .ip) (a : Octets) (h : isKind k a = true) :
+    classify false a = k :=
+  (classify_iff_prefix a k hk).2 ((isKind_iff k hk a).1 h)
+
+/-- **to_transport_relay** — the address `get` handed out for relay key `key` translates back to
+exactly that key, in the state right after the call and after any further operations on either
+table. -/
+theorem to_transport_relay (ops ops' : List GetOp) (custom : AddrMap) (key : Nat) (cs : List Nat)
+    (m1 : AddrMap) (a : Octets) (n : Nat)
+    (h : get (runGets .relay AddrMap.empty ops) .relay key cs = some (m1, a, n)) :
+    toTransport (runGets .relay m1 ops') custom false a = some (.relay key) := by
+  have hl := lookup_get .relay (by decide) ops ops' key cs m1 a n h
+  unfold lookupAddr at hl
+  split at hl
+  · rename_i hk
+    simp only [Option.some.injEq] at hl
+    simp [toTransport, classify_of_isKind .relay (by decide) a hk, hl]
+  · cases hl
+
+/-- The same for custom-transport keys. -/
+theorem to_transport_custom (ops ops' : List GetOp) (relay : AddrMap) (key : Nat) (cs : List Nat)
+    (m1 : AddrMap) (a : Octets) (n : Nat)
+    (h : get (runGets .custom AddrMap.empty ops) .custom key cs = some (m1, a, n)) :
+    toTransport relay (runGets .custom m1 ops') false a = some (.custom key) := by
+  have hl := lookup_get .custom (by decide) ops ops' key cs m1 a n h
+  unfold lookupAddr at hl
+  split at hl
+  · rename_i hk
+    simp only [Option.some.injEq] at hl
+    simp [toTransport, classify_of_isKind .custom (by decide) a hk, hl]
+  · cases hl
+
+/-- **to_transport_sound** — a relay translation names a key whose own address it is (never
+another key's), in every reachable state of the relay table. -/
+theorem to_transport_sound (ops : List GetOp) (custom : AddrMap) (isV4 : Bool) (a : Octets) (key : Nat)
+    (h : toTransport (runGets .relay AddrMap.empty ops) custom isV4 a = some (.relay key)) :
+    findAddr (runGets .relay AddrMap.empty ops) key = some a := by
+  unfold toTransport at h
+  split at h
+  · cases h
+  · cases hf : findKey (runGets .relay AddrMap.empty ops) a with
+    | none => simp [hf] at h
+    | some k =>
+      simp only [hf, Option.map_some, Option.some.injEq, Transport.relay.injEq] at h
+      subst h
+      exact ((bijection_inv .relay (by decide) ops).1 k a).2 hf
+  · cases hf : findKey custom a <;> simp [hf] at h
+  · cases h
+
+/-- **to_transport_ip** — an address outside the reserved prefixes (and every IPv4 address) is
+passed through as an IP transport address; an endpoint-id mapped address has none. -/
+theorem to_transport_ip (relay custom : AddrMap) (isV4 : Bool) (a : Octets) :
+    (classify isV4 a = .ip → toTransport relay custom isV4 a = some .ip) ∧
+    (classify isV4 a = .mixed → toTransport relay custom isV4 a = none) := by
+  constructor <;> intro h <;> simp [toTransport, h]
+
+/-- **to_transport_unknown** — a relay / custom mapped address nobody was given yields nothing. -/
+theorem to_transport_unknown (relay custom : AddrMap) (a : Octets) :
+    (classify false a = .relay → findKey relay a = none → toTransport relay custom false a = none) ∧
+    (classify false a = .custom → findKey custom a = none → toTransport relay custom false a = none) := by
+  constructor <;> intro h hf <;> simp [toTransport, h, hf]
+
+example : toTransport (runGets .relay AddrMap.empty [(4, [9])]) AddrMap.empty false (generate .relay 9)
+    = some (.relay 4) := by decide
+example : toTransport AddrMap.empty AddrMap.empty false (generate .relay 9) = none := by decide
+
 -- Non-vacuity: a run with a forced collision (key 2's first candidates collide with key 1's address).
 example :
     let m := runGets .mixed AddrMap.empty [(1, [5]), (2, [5, 5, 6])]
